@@ -15,6 +15,13 @@ What is extracted (each with a sentinel when the expected shape is missing):
   * waitFirstCompleted - asyncio.wait(..., return_when=asyncio.FIRST_COMPLETED)
   * sortStableByKey - the flush is `buffer.sort(key=key)` (list.sort is stable) followed by
                    yielding the buffer in order
+  * dspYieldSites / bufferBranchHoldsBack - debounced_sorted_prefix hands items to its caller in exactly
+                   two places (the flush loop of the marker branch, the pass-through statement) and the
+                   buffering branch does nothing but `extend_window()` and `buffer.append(item)`: no yield,
+                   no await, no other statement (a size- or time-dependent early hand-over lives there)
+
+`int_constants()` lists every integral numeric literal >= 2 of the module: the check feeds bursts whose
+sizes straddle each of them (a threshold on the number of buffered items can only be one of these).
 """
 from __future__ import annotations
 
@@ -43,6 +50,7 @@ def extract() -> dict:
     """Returns the extracted facts (also used by the check itself)."""
     facts: dict = {"passMode": "unknown", "markerCmp": None, "markerYield": None, "markerInBand": True, "mergeDefaultStop": None,
                    "dspMergeStop": None, "dspSources": None, "waitFirstCompleted": False, "sortStableByKey": False,
+                   "dspYieldSites": None, "bufferBranchHoldsBack": False,
                    "notes": []}
     notes = facts["notes"]
     tree = ast.parse(open(repo_path(REL)).read())
@@ -131,6 +139,20 @@ def extract() -> dict:
                 facts["passMode"] = "onMarkerConsumed"
             else:
                 notes.append("iterutils: pass-through condition is neither debouncer.is_complete nor a flag set in the marker branch")
+            # the buffering branch holds the item back and does nothing else
+            def _plain_call(s: ast.stmt, attr: str) -> bool:
+                return (isinstance(s, ast.Expr) and isinstance(s.value, ast.Call) and isinstance(s.value.func, ast.Attribute)
+                        and s.value.func.attr == attr and isinstance(s.value.func.value, ast.Name))
+            bb = inner_if.orelse
+            shape = sorted("extend" if _plain_call(s, "extend_window") else "append" if _plain_call(s, "append") else "other" for s in bb)
+            effects = [n for s in bb for n in ast.walk(s) if isinstance(n, (ast.Yield, ast.YieldFrom, ast.Await))]
+            facts["bufferBranchHoldsBack"] = bool(shape in (["append"], ["append", "extend"]) and not effects)
+            if not facts["bufferBranchHoldsBack"]:
+                notes.append("iterutils: the buffering branch of debounced_sorted_prefix is not just `extend_window(); buffer.append(item)` "
+                             f"(statements: {shape}, yields/awaits inside: {len(effects)})")
+    facts["dspYieldSites"] = sum(1 for n in ast.walk(dsp) if isinstance(n, (ast.Yield, ast.YieldFrom)))
+    if facts["dspYieldSites"] != 2:
+        notes.append(f"iterutils: debounced_sorted_prefix has {facts['dspYieldSites']} yield sites, expected 2 (flush loop, pass-through)")
 
     # ---- merge call inside debounced_sorted_prefix
     for n in ast.walk(dsp):
@@ -178,6 +200,21 @@ def extract() -> dict:
     return facts
 
 
+def int_constants() -> list[int]:
+    """every integral numeric literal >= 2 in the current iter_utils.py, sorted, without duplicates"""
+    try:
+        tree = ast.parse(open(repo_path(REL)).read())
+    except Exception:
+        return []
+    found: set[int] = set()
+    for n in ast.walk(tree):
+        if isinstance(n, ast.Constant) and not isinstance(n.value, bool) and isinstance(n.value, (int, float)):
+            v = n.value
+            if v == v and abs(v) != float("inf") and float(v).is_integer() and int(v) >= 2:
+                found.add(int(v))
+    return sorted(found)
+
+
 def _b(v) -> str:
     return "true" if v is True else "false"
 
@@ -208,6 +245,8 @@ def generate(notes: list[str]) -> list[str]:
         f"def dspSources : Nat := {f['dspSources'] if isinstance(f['dspSources'], int) else 0}",
         f"def waitFirstCompleted : Bool := {_b(f['waitFirstCompleted'])}",
         f"def sortStableByKey : Bool := {_b(f['sortStableByKey'])}",
+        f"def dspYieldSites : Nat := {f['dspYieldSites'] if isinstance(f['dspYieldSites'], int) else 0}",
+        f"def bufferBranchHoldsBack : Bool := {_b(f['bufferBranchHoldsBack'])}",
         "end Gen",
         "end IterUtils",
     ]
